@@ -322,9 +322,18 @@ func oracleNext(o *Out, pre, post seatSnap, err error, replay func() interface{}
 			// the big blind were re-activated
 			stale := post.sb == post.d && post.bb == wsb
 			if stale {
+				// seats the button passed in this move (strictly between the old and the new dealer)
+				passed := map[int]bool{}
+				if pre.d >= 0 {
+					for i := (pre.d + 1) % n; i != post.d; i = (i + 1) % n {
+						passed[i] = true
+					}
+				}
 				for i := 0; i < n; i++ {
 					if post.playable(i) && i != post.d && i != post.bb {
-						if !(pre.occ[i] && !pre.res[i] && !pre.act[i]) {
+						// F11 is about waiting players behind the big blind who were let in by
+						// renewSeatStatus after the playable seats had been counted
+						if !(pre.occ[i] && !pre.res[i] && !pre.act[i]) || passed[i] {
 							stale = false
 						}
 					}
@@ -429,6 +438,8 @@ func newcomerScenario(o *Out, rng *rand.Rand) {
 			return err
 		case 1:
 			return m.Seat(op.A)
+		case 2:
+			return m.Reserve(op.A)
 		case 3:
 			return m.Leave(op.A)
 		case 4:
@@ -459,6 +470,21 @@ func newcomerScenario(o *Out, rng *rand.Rand) {
 		return
 	}
 	x := gaps[rng.Intn(len(gaps))]
+	// sometimes a visitor takes the seat and gives it up again first (join / sit / reserve / leave)
+	for v := rng.Intn(3); v > 0; v-- {
+		if do(SeatOp{0, x}) != nil {
+			return
+		}
+		if rng.Intn(2) == 0 {
+			do(SeatOp{1, x})
+		}
+		if rng.Intn(3) == 0 {
+			do(SeatOp{2, x})
+		}
+		if do(SeatOp{3, x}) != nil {
+			return
+		}
+	}
 	if do(SeatOp{0, x}) != nil || do(SeatOp{1, x}) != nil {
 		return
 	}
